@@ -173,7 +173,8 @@ def _plist_value(rng, depth=0):
     if k == 4: return rng.bytes(rng.randint(0, 50))
     if k == 5: return datetime.datetime(rng.randint(1970, 2100), rng.randint(1, 12), rng.randint(1, 28), rng.randint(0, 23), rng.randint(0, 59), rng.randint(0, 59))
     if k in (6, 7): return [_plist_value(rng, depth + 1) for _ in range(rng.randint(0, 4))]
-    return {"".join(rng.choice("abcXYZ.&<") for _ in range(rng.randint(1, 5))): _plist_value(rng, depth + 1) for _ in range(rng.randint(0, 4))}
+    # keys include the empty string (a legal <key/>)
+    return {"".join(rng.choice("abcXYZ.&<") for _ in range(rng.randint(0 if rng.chance(15) else 1, 5))): _plist_value(rng, depth + 1) for _ in range(rng.randint(0, 4))}
 
 def sweeps(tier, rng):
     """write -> read equality of design sources on the implementation (testing)"""
@@ -210,10 +211,14 @@ def sweeps(tier, rng):
             a = AxisDescriptor(); a.minimum, a.default, a.maximum = 0, 400, 1000
             k = rng.randint(2, 6)
             xs = sorted(rng.sample(range(0, 1001), k)); ys = sorted(rng.sample(range(-500, 3000), k))
-            a.map = [(Fraction(x), Fraction(y)) for x, y in zip(xs, ys)]
+            # a third of the maps are strictly decreasing (a slant axis: user up, design down); entries in any order
+            if i % 3 == 2: ys.reverse()
+            pairs = [(Fraction(x), Fraction(y)) for x, y in zip(xs, ys)]
+            if rng.chance(30): rng.shuffle(pairs)
+            a.map = pairs
             u = Fraction(rng.randint(xs[0] * 8, xs[-1] * 8), 8)
             d = a.map_forward(u); u2 = a.map_backward(d)
-            dd = Fraction(rng.randint(ys[0] * 8, ys[-1] * 8), 8)
+            dd = Fraction(rng.randint(min(ys) * 8, max(ys) * 8), 8)
             ok = (u2 == u) and a.map_forward(a.map_backward(dd)) == dd
             yield (("axis-map", xs, ys, str(u)), None if ok else "map_backward(map_forward(%s)) = %s on map %r" % (u, u2, list(zip(xs, ys))))
     def run_plist():
@@ -238,7 +243,7 @@ def sweeps(tier, rng):
             g = G(); g.width = rng.choice([0, 500, 612.5]); g.height = rng.choice([0, 1000])
             g.unicodes = sorted(set(rng.randint(32, 0x10FFFF) for _ in range(rng.below(3))))
             g.note = rng.choice([None, "a note", "line1\nline2"]) if rng.chance(50) else None
-            g.lib = {"k": [1, 2.5, "x", True]} if rng.chance(30) else {}
+            g.lib = rng.choice([{"k": [1, 2.5, "x", True]}, {"": 1, "k": {"": "e", "z": []}}]) if rng.chance(30) else {}
             g.anchors = [dict(x=rng.randint(-50, 50), y=rng.randint(-50, 50), name="top")] if rng.chance(40) else []
             g.guidelines = [dict(x=10, y=20, angle=45.5, name="g")] if rng.chance(20) else []
             rec = RecordingPointPen()
